@@ -13,8 +13,7 @@ namespace Bartiq
 
 /-- **round trip**: parsing what the printer wrote gives back exactly the tree that was printed (all well-formed surface trees:
     any nesting of + - * / // % **, signs, calls, names, non-negative literals), for the table read from the real printer -/
-theorem C12_roundtrip (t : SExpr) (h : wfs t = true) :
-    ∃ f0, ∀ f, f0 ≤ f → pExpr f (printWith Generated.parenTable t) = some (t, []) :=
+theorem C12_roundtrip (t : SExpr) (h : wfs t = true) : parseToks (printWith Generated.parenTable t) = some t :=
   parse_print Generated.parenTable t h
 
 /-- the real printer's decisions around `^`, as probed this run, are sufficient on their own -/
@@ -42,14 +41,10 @@ theorem C12_table_alone_suffices (tbl : ParenTable) (hA : tbl.Adequate) (a : SEx
   · simp [h]
 
 /-- the re-read expression has the same symbols and the same calls, because it is the same tree -/
-theorem C12_same_symbols_and_calls (t t' : SExpr) (h : wfs t = true) :
-    ∀ f0, (∀ f, f0 ≤ f → pExpr f (printWith Generated.parenTable t) = some (t', [])) → t' = t := by
-  intro f0 h'
-  obtain ⟨f1, h1⟩ := C12_roundtrip t h
-  have a := h' (max f0 f1) (by omega)
-  have b := h1 (max f0 f1) (by omega)
-  rw [a] at b
-  simpa using b
+theorem C12_same_symbols_and_calls (t t' : SExpr) (h : wfs t = true)
+    (h' : parseToks (printWith Generated.parenTable t) = some t') : t' = t := by
+  rw [C12_roundtrip t h] at h'
+  exact (Option.some.inj h').symm
 
 /-- names (plain, dotted, `#port`, reserved words) are printed as themselves, as one token -/
 theorem C12_names_print_as_themselves (tbl : ParenTable) (s : String) : printWith tbl (.name s) = [Tok.name s] := rfl
